@@ -155,6 +155,28 @@ func c10ReuseTypes() []reuseType {
 	phys = append(phys, append(append([]byte{0x00}, fillBytes(18, 5)...), 1, 2, 3, 4), append(append([]byte{0x20}, fillBytes(12, 6)...), 1, 2, 3, 4),
 		append(append([]byte{0xC0, 0x01}, fillBytes(18, 7)...), 1, 2, 3, 4), []byte{0xE0, 1, 2, 3, 4, 5, 6}, []byte{0x40, 1, 2})
 	add("lorawan.PHYPayload", func() interface{} { return &lorawan.PHYPayload{} }, func(v interface{}, b []byte) error { return v.(*lorawan.PHYPayload).UnmarshalBinary(b) }, phys...)
+	// a used value is usually one the receiver went on working with: before the next decode the calls that
+	// follow a decode have replaced parts of it (DecryptJoinAcceptPayload puts a JoinAcceptPayload in place,
+	// DecodeFOptsToMACCommands / DecryptFRMPayload / DecodeFRMPayloadToMACCommands rewrite the lists)
+	physF := append(append([][]byte(nil), phys...), append(append([]byte{0xE0}, fillBytes(12, 8)...), 1, 2, 3, 4), append(append([]byte{0x20}, fillBytes(28, 6)...), 1, 2, 3, 4))
+	add("lorawan.PHYPayload(after-the-receiver's-follow-up-calls)", func() interface{} { return &lorawan.PHYPayload{} }, func(v interface{}, b []byte) error {
+		p := v.(*lorawan.PHYPayload)
+		if p.MACPayload != nil {
+			engine.Try(func() {
+				k := keyOf(c05KeyA)
+				switch p.MHDR.MType {
+				case lorawan.JoinAccept:
+					p.DecryptJoinAcceptPayload(k)
+				case lorawan.JoinRequest, lorawan.RejoinRequest, lorawan.Proprietary:
+				default:
+					p.DecodeFOptsToMACCommands()
+					p.DecryptFRMPayload(k)
+					p.DecodeFRMPayloadToMACCommands()
+				}
+			})
+		}
+		return p.UnmarshalBinary(b)
+	}, physF...)
 
 	// application layer payloads and command lists
 	for pi := range c18Pkgs {
@@ -467,7 +489,7 @@ func runC10(r *engine.Run) {
 	// (the Encrypt* methods work on their own copy and swap in a new payload)
 	gOps := []string{"MarshalBinary", "MarshalText", "ValidateUplinkDataMIC", "ValidateUplinkDataMICF", "SetUplinkDataMIC", "EncryptFRMPayload", "DecryptFRMPayload", "EncryptFOpts", "MarshalJSON"}
 	gLens := []int{0, 1, 15, 16, 17, 32, 33}
-	spG := (&engine.Space{}).Dim("op", len(gOps)).Dim("frm first element length", len(gLens)).Dim("frm elements{1,2}", 2).Dim("fopts length{0,3,15}", 3).Dim("spare capacity{0,1,40}", 3)
+	spG := (&engine.Space{}).Dim("op", len(gOps)).Dim("frm first element length", len(gLens)).Dim("frm elements{1, 2, 3 with an empty one in the middle, 3 with an empty one first}", 4).Dim("fopts length{0,3,15}", 3).Dim("spare capacity{0,1,40}", 3)
 	r.PartDims("guarded-payload-buffers", spG.Desc(), spG.N(), func(c *engine.Case) {
 		var ch [5]int
 		spG.Decode(c.Index, ch[:])
@@ -493,11 +515,19 @@ func runC10(r *engine.Run) {
 		}
 		if n := gLens[ch[1]]; n > 0 || ch[2] == 1 {
 			mp.FRMPayload = []lorawan.Payload{&lorawan.DataPayload{Bytes: mk(n, 0x42)}}
-			if ch[2] == 1 {
+			switch ch[2] {
+			case 1:
 				mp.FRMPayload = append(mp.FRMPayload, &lorawan.DataPayload{Bytes: mk(5, 0x63)})
+			case 2:
+				mp.FRMPayload = append(mp.FRMPayload, &lorawan.DataPayload{}, &lorawan.DataPayload{Bytes: mk(5, 0x63)})
+			case 3:
+				mp.FRMPayload = append([]lorawan.Payload{&lorawan.DataPayload{}}, append(mp.FRMPayload, &lorawan.DataPayload{Bytes: mk(5, 0x63)})...)
 			}
 		}
 		p := lorawan.PHYPayload{MHDR: lorawan.MHDR{MType: lorawan.ConfirmedDataUp}, MACPayload: mp}
+		// the operations that only inspect the frame leave the caller's payload lists as they are:
+		// the same elements at the same positions (the list's backing array is the caller's too)
+		listBefore, printBefore := append([]lorawan.Payload(nil), mp.FRMPayload...), deepPrint(p)
 		var snaps [][]byte
 		for _, b := range bufs {
 			snaps = append(snaps, append([]byte(nil), b.arena...))
@@ -525,6 +555,16 @@ func runC10(r *engine.Run) {
 			p.MarshalJSON()
 		}
 		c.NonTrivial()
+		switch op {
+		case "MarshalBinary", "MarshalText", "ValidateUplinkDataMIC", "ValidateUplinkDataMICF", "MarshalJSON":
+			same := len(mp.FRMPayload) == len(listBefore)
+			for i := 0; same && i < len(listBefore); i++ {
+				same = mp.FRMPayload[i] == listBefore[i]
+			}
+			if after := deepPrint(p); !same || after != printBefore {
+				c.Fail("guarded-buffers/"+op+"/frame-modified", fmt.Sprintf("%s changed the frame it only inspects (FRMPayload list of %d elements): %s -> %s", op, len(listBefore), printBefore, after), nil)
+			}
+		}
 		for i, b := range bufs {
 			for q := range b.arena {
 				if b.arena[q] != snaps[i][q] {
